@@ -40,6 +40,10 @@ CFGS = [
     # what was configured — a zero clock skew, the registered algorithm — is part of that state
     {"sigalg": "RS256", "reg": "dynamic", "allow_none": False, "skew": 0, "missing_kid": False, "restored": True},
     {"sigalg": "ES256", "reg": "static", "allow_none": False, "skew": 0, "missing_kid": False, "restored": True},
+    # the authorization request travels as a signed request object passed BY VALUE (state and nonce are inside the object only):
+    # what the client remembers of its own request must not depend on how the request travelled
+    {"sigalg": "RS256", "reg": "dynamic", "allow_none": False, "skew": 0, "missing_kid": False, "jar": "request"},
+    {"sigalg": None, "reg": "static", "allow_none": False, "skew": None, "missing_kid": False, "jar": "request"},
 ]
 MUT = {
     "iss": ["absent", "J", "unknown", "list"],
@@ -198,10 +202,16 @@ def rp_for(ci, fake_op=False):
             c = CFGS[ci]
             _rps[("fake", ci)] = rpbase.make_rp(sigalg=c["sigalg"], allow_none=c["allow_none"], skew=c["skew"], missing_kid=c["missing_kid"], reg=c["reg"],
                                                  httpc=c09.FakeOP(ISS))
+            if c.get("jar"):
+                _rps[("fake", ci)].get_context().set_usage("request_parameter", True)
+                _rps[("fake", ci)].get_context().set_usage("request_object_signing_alg", "HS256")
         return _rps[("fake", ci)]
     if ci not in _rps:
         c = CFGS[ci]
         rp = rpbase.make_rp(sigalg=c["sigalg"], allow_none=c["allow_none"], skew=c["skew"], missing_kid=c["missing_kid"], reg=c["reg"])
+        if c.get("jar"):
+            rp.get_context().set_usage("request_parameter", True)
+            rp.get_context().set_usage("request_object_signing_alg", "HS256")
         if c.get("restored"):
             store = rp.get_context().dump()
             fresh = rpbase.make_rp()          # nothing of the configuration above: defaults
@@ -227,6 +237,8 @@ def expected_skew(cfg):
 def _begin(rp, rt):
     url = rp.init_authorization(req_args={"response_type": rt, "scope": ["openid"]})
     q = {k: v[0] for k, v in parse_qs(urlsplit(url).query).items()}
+    if "state" not in q and "request" in q:
+        q = rpbase.unb64(q["request"].split(".")[1])         # the request object carries them
     return q["state"], q.get("nonce")
 
 
